@@ -61,6 +61,10 @@ def systems(tier):
                 out.append(dict(fam='plano-hyperbolic', n=n, R=-30.0, frac=frac, hist=hist))
             out.append(dict(fam='elliptical-immersion', n=n, R=30.0, frac=frac, hist='direct'))
             out.append(dict(fam='elliptical-immersion', n=n, R=-30.0, frac=frac, hist='direct', fold=True))
+    # the same singlet made image-space telecentric (stop in the front focal plane: exit pupil at infinity), and nearly so
+    for n in (1.5, 2.0):
+        for off in (0.0, 1e-6, 0.5):
+            out.append(dict(fam='plano-hyperbolic', n=n, R=-30.0, frac=0.5, hist='direct', stop_in_front_focal_plane=True, stop_offset=off))
     # the same singlet in a dispersive glass, made stigmatic for one of the lens's wavelengths (primary or not)
     for glass in ('N-BK7', 'SF11', ['abbe', 1.62, 36.4]):
         for wd in (0.4861, 0.5876, 0.6563):
@@ -157,6 +161,12 @@ def make(u):
         h = u['frac'] * hmax
         # centre thickness large enough for the rim of the (concave towards -z) exit face to stay behind the flat face
         ct = 2.0 + abs(h * h / (R * (1 + math.sqrt(1 + (n * n - 1) * h * h / (R * R)))))
+        if u.get('stop_in_front_focal_plane'):
+            # image-space telecentric: a stop in air in the front focal plane (first principal plane ct/n behind the flat face)
+            t0 = f - ct / n + u.get('stop_offset', 0.0)
+            surfs = [S('plane', mat='air', t=t0, stop=True), S('plane', mat=['ideal', n, 0.0], t=ct), s2]
+            sp = LZ.spec(surfs, obj=LZ.INF, ap=('EPD', 2 * h), fields=(0.0,), waves=w)
+            return sp, (0, 0, t0 + ct + f), edits, f
         surfs = [S('plane', mat=glass if glass else ['ideal', n, 0.0], t=ct, stop=True), s2]
         sp = LZ.spec(surfs, obj=LZ.INF, ap=('EPD', 2 * h), fields=(0.0,), waves=w)
         return sp, (0, 0, ct + f), edits, f
@@ -260,7 +270,8 @@ def run_unit(u):
     part.evals += 1
     part.transitions += 1
     c = f"family={u['fam']},history={u.get('hist', 'direct')},medium={'air' if not u.get('med') else 'immersed'}" + \
-        (',dispersive-glass' if u.get('glass') else '')
+        (',dispersive-glass' if u.get('glass') else '') + \
+        (',exit-pupil-at-infinity' if u.get('stop_in_front_focal_plane') and u.get('stop_offset', 0.0) < 0.1 else '')
     x, y, opd = np.asarray(rays.x, float), np.asarray(rays.y, float), np.asarray(rays.opd, float)
     fin = np.isfinite(x) & np.isfinite(y) & np.isfinite(opd)
     if np.mean(fin) < 0.8:
